@@ -51,4 +51,21 @@ theorem not_writes_of_cert (S : List String) (hc : closed S = true) (hn : noneWr
   have := (List.all_eq_true.mp hn) _ hg
   simpa using this
 
+/-- every function of `S` reads only variables of `allowed` -/
+def onlyReads (S allowed : List String) : Bool :=
+  S.all fun f => (readsOf f).all fun v => allowed.contains v
+
+theorem reads_subset_of_cert (S allowed : List String) (hc : closed S = true)
+    (ho : onlyReads S allowed = true) (root g v : String) (hr : root ∈ S) (h : Reach root g)
+    (hv : v ∈ readsOf g) : v ∈ allowed := by
+  have hg := reach_subset_of_closed S hc root g hr h
+  have := (List.all_eq_true.mp ho) _ hg
+  have := (List.all_eq_true.mp this) _ hv
+  simpa using this
+
+theorem mem_of_all_contains' (roots S : List String) (h : roots.all (S.contains ·) = true)
+    (r : String) (hr : r ∈ roots) : r ∈ S := by
+  have := (List.all_eq_true.mp h) r hr
+  simpa using this
+
 end Mxj.Facts
